@@ -145,6 +145,14 @@ func (l *Lifter) brBlock(stmts []ast.Stmt, cur *rcur, counts map[string]*countVa
 		}
 	}()
 	for i := 0; i < len(stmts); i++ {
+		if top {
+			if ns, ok := dispatchAsLoop(stmts, i, func(tag ast.Expr) bool {
+				ix, isIx := unparen(tag).(*ast.IndexExpr)
+				return isIx && l.isIdent(ix.X, "buf")
+			}); ok {
+				stmts = ns
+			}
+		}
 		s := stmts[i]
 		if cur.pendingRec != "" {
 			if _, isAcc := l.accStmt(s, "at"); !isAcc {
@@ -673,6 +681,14 @@ func (l *Lifter) srBlock(stmts []ast.Stmt, counts map[string]*countVar, limited 
 	var items []Item
 	pendingLimit := map[string]bool{}
 	for i := 0; i < len(stmts); i++ {
+		if top {
+			if ns, ok := dispatchAsLoop(stmts, i, func(tag ast.Expr) bool {
+				name, _, isRead := l.readStreamCall(tag)
+				return isRead && name == "ReadByte"
+			}); ok {
+				stmts = ns
+			}
+		}
 		s := stmts[i]
 		switch x := s.(type) {
 		case *ast.EmptyStmt:
@@ -952,3 +968,50 @@ func (l *Lifter) srBlock(stmts []ast.Stmt, counts map[string]*countVar, limited 
 	}
 	return items
 }
+
+
+// dispatchAsLoop rewrites, at the top level of a decoder,
+//
+//	switch TAG { case k: BODY_k … }
+//	TAIL
+//
+// into the shape the decoders of messages have and the readers above know:
+//
+//	for { switch TAG { case k: BODY_k; TAIL; [return] … default: TAIL; [return] } }
+//
+// A union holds one member, so its decoder needs no loop; falling out of the
+// switch into a shared tail is the same control flow as every arm ending in
+// that tail. Only the statement list changes; the nodes keep their positions.
+func dispatchAsLoop(stmts []ast.Stmt, i int, isTag func(ast.Expr) bool) ([]ast.Stmt, bool) {
+	sw, ok := stmts[i].(*ast.SwitchStmt)
+	if !ok || sw.Init != nil || sw.Tag == nil || !isTag(sw.Tag) {
+		return nil, false
+	}
+	tail := append([]ast.Stmt{}, stmts[i+1:]...)
+	if n := len(tail); n == 0 || !isReturnStmt(tail[n-1]) {
+		tail = append(tail, &ast.ReturnStmt{Return: sw.End()})
+	}
+	// an arm that already leaves the function keeps its own ending
+	endsArm := func(b []ast.Stmt) bool { return len(b) > 0 && isReturnStmt(b[len(b)-1]) }
+	nsw := &ast.SwitchStmt{Switch: sw.Switch, Tag: sw.Tag, Body: &ast.BlockStmt{Lbrace: sw.Body.Lbrace, Rbrace: sw.Body.Rbrace}}
+	hasDefault := false
+	for _, cc := range sw.Body.List {
+		cl := cc.(*ast.CaseClause)
+		body := append([]ast.Stmt{}, cl.Body...)
+		if !endsArm(body) {
+			body = append(body, tail...)
+		}
+		if cl.List == nil {
+			hasDefault = true
+		}
+		nsw.Body.List = append(nsw.Body.List, &ast.CaseClause{Case: cl.Case, List: cl.List, Colon: cl.Colon, Body: body})
+	}
+	if !hasDefault {
+		nsw.Body.List = append(nsw.Body.List, &ast.CaseClause{Case: sw.Body.Rbrace, Colon: sw.Body.Rbrace, Body: tail})
+	}
+	loop := &ast.ForStmt{For: sw.Switch, Body: &ast.BlockStmt{Lbrace: sw.Switch, List: []ast.Stmt{nsw}, Rbrace: sw.End()}}
+	out := append(append([]ast.Stmt{}, stmts[:i]...), loop)
+	return out, true
+}
+
+func isReturnStmt(s ast.Stmt) bool { _, ok := s.(*ast.ReturnStmt); return ok }
